@@ -24,7 +24,7 @@ from vlib.front import unparse, dotted, const_value, AnchorMissing
 from obligations.C11 import MI, _strip
 
 MG = 'phylib/io/merge.py'
-FLOOR = 23
+FLOOR = 17
 EXPLANATION = ('proto/sym walks of the Merger channel/template methods: loop bodies are walked from symbolic accumulator states and the '
                'column base / offsets / recorded values compared as normal forms with the cumulative-size recurrences of the specification; '
                'saved arrays are traced to concat / block_diag of the per-probe files in input order')
@@ -79,25 +79,49 @@ def s1_templates(ctx):
             ctx.undecided('C12.S1', f, 'header write `%s` not recognised' % unparse(hdr[0])[:60], hdr[0])
     # loops
     loops = f.nodes(ast.For)
+    TL, i, it = T('TL'), T('i'), T('it')
+    extra_env = {}
     outer = [l for l in loops if unparse(l.iter).replace(' ', '') in ('range(len(self.subdirs))', 'range(len(%s))' % tl)]
-    if not outer:
-        ctx.undecided('C12.S1', f, 'no loop `for i in range(len(self.subdirs))`')
-        return
-    lp = outer[0]
-    ivar = unparse(lp.target)
+    elem_name = None
+    if outer:
+        lp = outer[0]
+        ivar = unparse(lp.target)
+    else:
+        # direct iteration over the per-probe arrays: `for templates_i in templates_l` / `for i, templates_i in enumerate(templates_l)`
+        direct = [l for l in loops if (isinstance(l.iter, ast.Name) and l.iter.id == tl and isinstance(l.target, ast.Name)) or
+                  (isinstance(l.iter, ast.Call) and dotted(l.iter.func) == 'enumerate' and l.iter.args and unparse(l.iter.args[0]) == tl and isinstance(l.target, ast.Tuple) and len(l.target.elts) == 2)]
+        if not direct:
+            ctx.undecided('C12.S1', f, 'no loop over the probes (`for i in range(len(self.subdirs))` / `for templates_i in templates_l`)')
+            return
+        lp = direct[0]
+        if isinstance(lp.target, ast.Tuple):
+            ivar, elem_name = unparse(lp.target.elts[0]), unparse(lp.target.elts[1])
+        else:
+            ivar, elem_name = '_probe_index', unparse(lp.target)
+        extra_env[elem_name] = T('index', TL, i)
     inner = [l for l in lp.body if isinstance(l, ast.For)]
     if not inner:
         ctx.undecided('C12.S1', f, 'no inner loop over the templates of a probe')
         return
     il = inner[0]
-    ctx.check(unparse(il.iter).replace(' ', '') in ('np.arange(%s[%s].shape[0])' % (tl, ivar), 'range(%s[%s].shape[0])' % (tl, ivar), 'range(len(%s[%s]))' % (tl, ivar)),
-              'C12.S1', f, il.iter, 'every template of probe i is written once, in order', 'the inner loop does not run over all templates of probe i in order')
+    elem_txts = ['%s[%s]' % (tl, ivar)] + ([elem_name] if elem_name else [])
+    idx_forms = [t_ % e_ for e_ in elem_txts for t_ in ('np.arange(%s.shape[0])', 'range(%s.shape[0])', 'range(len(%s))')]
+    it_txt = unparse(il.iter).replace(' ', '')
+    if it_txt in idx_forms:
+        ctx.holds('C12.S1', f, 'every template of probe i is written once, in order', il.iter)
+    elif it_txt in elem_txts and isinstance(il.target, ast.Name):
+        ctx.holds('C12.S1', f, 'every template of probe i is written once, in order (direct iteration over the templates of the probe)', il.iter)
+        extra_env[il.target.id] = T('index', T('index', TL, i), it)
+    elif any(x in it_txt for x in ('[::-1]', 'reversed(', '[1:]', '[:-1]', '-1)')):
+        ctx.violated('C12.S1', f, il.iter, 'the inner loop does not run over all templates of probe i in order (`%s`)' % unparse(il.iter))
+    else:
+        ctx.undecided('C12.S1', f, 'inner loop `%s` over the templates of a probe not recognised' % unparse(il.iter), il.iter)
     # accumulator names: any Name assigned in the outer loop body before the inner loop and read in the store
     pre = [s_ for s_ in lp.body if s_ is not il and lp.body.index(s_) < lp.body.index(il)]
     assigned = [unparse(t) for s_ in pre if isinstance(s_, ast.Assign) for t in s_.targets]
     carried = [n for n in assigned if any(isinstance(x, ast.Name) and x.id == n for s_ in pre for x in ast.walk(s_.value) if isinstance(s_, ast.Assign)) or True]
-    TL, i, it = T('TL'), T('i'), T('it')
     env = {f.params[0]: me, tl: TL, ivar: i, unparse(il.target): it, nchan_name: T('NCH'), nsamp_name: T('NS'), fid_name: T('fid')}
+    env.update(extra_env)
     for n in assigned:
         env[n] = T('pre', n)
     nch_i = T('index', T('attr', T('index', TL, i), 'shape'), C(2))
